@@ -400,6 +400,18 @@ M('C03', 'c03-teardown-stops-at-terminal', 'openhtf/core/test_executor.py',
   'teardown sequence stops at its first terminal node')
 
 # ---------------------------------------------------------------- C04
+M('C04', 'c04-abort-rereads-executor', 'openhtf/core/test_descriptor.py',
+  "        _LOG.error('Test state: %s', executor.test_state)\n        executor.abort()",
+  "        _LOG.error('Test state: %s', self._executor.test_state)\n        self._executor.abort()",
+  'abort_from_sig_int dereferences self._executor again after testing it (F28 regression)')
+M('C04', 'c04-last-run-phase-name-rereads', 'openhtf/core/test_state.py',
+  "    phase_state = self.running_phase_state\n    if phase_state:\n      return phase_state.name",
+  "    if self.running_phase_state:\n      return self.running_phase_state.name",
+  'last_run_phase_name reads running_phase_state twice (F29 regression)')
+M('C04', 'c04-thread-started-outside-lock', 'openhtf/core/phase_executor.py',
+  "        phase_thread.start()\n        self._current_phase_thread = phase_thread\n",
+  "        self._current_phase_thread = phase_thread\n      phase_thread.start()\n",
+  'phase thread published under the lock but started after it is released (seeded C04-1)')
 M('C04', 'c04-abort-forgotten-in-phase-once', 'openhtf/core/phase_executor.py',
   "        if self._stopping.is_set() or (abort_requested and abort_requested()):",
   "        if self._stopping.is_set():",
@@ -669,9 +681,17 @@ M('C14', 'c14-chunk-too-large', 'openhtf/plugs/usb/adb_protocol.py',
   "      self._transport.write(data[:self._transport.adb_connection.maxdata + 1],\n                            timeout)\n      data = data[self._transport.adb_connection.maxdata + 1:]",
   'host chunks one byte larger than maxdata')
 M('C14', 'c14-no-write-lock', 'openhtf/plugs/usb/adb_protocol.py',
-  "    with self._write_lock:\n      self._expecting_okay = True\n      self._send_command('WRTE', timeout, data)\n      self._read_messages_until_true(lambda: not self._expecting_okay, timeout)",
-  "    if True:\n      self._expecting_okay = True\n      self._send_command('WRTE', timeout, data)",
+  "      self._expecting_okay = True\n      self._send_command('WRTE', timeout, data)\n      self._read_messages_until_true(lambda: not self._expecting_okay, timeout)",
+  "      self._expecting_okay = False\n      self._send_command('WRTE', timeout, data)",
   'write does not wait for the OKAY: several WRTE outstanding')
+M('C14', 'c14-flag-checked-outside-lock', 'openhtf/plugs/usb/adb_protocol.py',
+  "    with self._write_lock:\n      # Checked under the lock: a writer that was waiting for the lock while\n      # the previous WRTE timed out must not send another one.\n      if self._expecting_okay:",
+  "    if self._expecting_okay:\n      raise usb_exceptions.AdbProtocolError('Previous WRTE failed')\n    with self._write_lock:\n      if False:",
+  'outstanding-WRTE flag tested before taking the write lock (F27 regression)')
+M('C14', 'c14-flag-cleared-on-failed-write', 'openhtf/plugs/usb/adb_protocol.py',
+  "      self._send_command('WRTE', timeout, data)\n      self._read_messages_until_true(lambda: not self._expecting_okay, timeout)",
+  "      try:\n        self._send_command('WRTE', timeout, data)\n        self._read_messages_until_true(lambda: not self._expecting_okay, timeout)\n      finally:\n        self._expecting_okay = False",
+  'a timed-out write clears the flag, so a retry sends a second unacknowledged WRTE (seeded C14-2)')
 M('C14', 'c14-queue-to-wrong-stream', 'openhtf/plugs/usb/adb_protocol.py',
   "        dest_transport = self._stream_transport_map.get(message.arg1)\n",
   "        dest_transport = self._stream_transport_map.get(message.arg1)\n        if message.command == 'WRTE' and len(message.data) == 7: dest_transport = stream_transport\n",
